@@ -24,6 +24,7 @@ def run(ctx, db, tier):
     consumers_clear(ctx, db)
     self_inclusion(ctx, db)
     listed_queued_once(ctx, db)
+    awaiter_handed_over_once(ctx, db)
     growth(ctx, db)
     value_writers(ctx, db)
     collected_is_removed(ctx, db)
@@ -933,6 +934,125 @@ def listed_queued_once(ctx, db, rid_='C06.listed-handles-queued-once'):
                trace=fmt_trace(bad[1]) if bad else None)
     if n == 0:
         raise Broken('await_suspend: the scan that compares the listed handles with the awaiting coroutine was not found')
+
+
+# what makes a coroutine handle run: it is put into a ready queue / resumed under one (argument), resumed directly (receiver), or returned
+# by await_suspend for symmetric transfer
+HANDOVER_ARG = ('cocls::suspend_point::await_suspend', 'cocls::coro_queue::resume', 'cocls::coro_queue::install_queue_and_resume', 'cocls::coro_queue::swap_coroutine',
+                'cocls::coro_queue::resume_handle')
+HANDOVER_RECV = ('std::coroutine_handle::resume', 'std::coroutine_handle::operator()')
+
+
+def _frame_value(db, tr, i, name):
+    """variable `name` of the function that owns item tr[i] (a captured variable of a closure created there), in the terms of the root
+    function of the trace: (path, index) - a parameter of an expanded helper is the argument it was called with"""
+    it = tr[i]; d = it.get('depth', 0)
+    owner = db.get(it.get('fn'))
+    if owner is None:
+        return None, i
+    pn = [p['name'] for p in owner['params']]
+    if name not in pn:
+        return 'local:%s%s' % (name, '#%d' % d if d else ''), i
+    if d == 0:
+        return 'param:' + name, i
+    for j in range(i - 1, -1, -1):
+        x = tr[j]
+        if x.k == 'enter' and x.get('depth') == d - 1:
+            a = x.ev.get('args') or []
+            k = pn.index(name)
+            return (a[k].get('path') if k < len(a) else None), j
+    return None, i
+
+
+def _is_value(tr, i, path, target):
+    """does `path`, read at tr[i], hold the value of `target` (through copies, locals, values returned by expanded helpers)?"""
+    for _ in range(4):
+        if path is None:
+            return False
+        path = _unwrap(path)
+        if path == target:
+            return True
+        o, j = origin_in_trace(tr, i, path)
+        o = _unwrap(o or '')
+        if o == target:
+            return True
+        if o == path:
+            return False
+        path, i = o, j
+    return False
+
+
+def _handovers(tr, is_me, d0=None):
+    """the events of one trace that hand the coroutine recognised by is_me(index, path) over to something that resumes it"""
+    out = []
+    for i, it in enumerate(tr):
+        if it.k != 'call' or it.get('expanded'):
+            continue
+        c = norm(it.get('callee') or '')
+        if c in HANDOVER_ARG or c.endswith('::push') or (c.endswith('::push_back') and 'coroutine_handle' in ''.join((a.get('type') or '') for a in it.get('args') or [])):
+            if any(is_me(i, a.get('path')) for a in it.get('args') or []):
+                out.append(it)
+        elif c in HANDOVER_RECV and is_me(i, it.get('recv')):
+            out.append(it)
+    return out
+
+
+def awaiter_handed_over_once(ctx, db, rid_='C06.awaiter-handed-over-once'):
+    """await_suspend(h) disposes of the awaiting coroutine h: it is queued, or given to a nested await_suspend that queues it (in the closure run
+    under the temporary queue), or resumed, or returned for symmetric transfer.  Every one of these makes h run once; two of them on one path
+    resume it twice by one co_await (the second time from whatever suspension point it reached meanwhile, or after it was destroyed)"""
+    rid = ctx.rule(rid_, 'COUNT', 'suspend_point::await_suspend(h), every path (helpers expanded, closures created on the path and handed to a call included): the awaiting coroutine h is '
+                   'handed over for resumption at most once - queue push / nested await_suspend(h) / coro_queue::resume(h) / h.resume() / being the returned value (symmetric transfer) '
+                   'are each one hand-over', floor=1)
+    noself = lambda c, e, callee: norm(callee.get('nname') or '') != 'cocls::suspend_point::await_suspend'
+    TL = Tracer(db, depth=4, maxvisit=2, inline_filter=lambda c, e, callee: is_helper(db, c, callee) and noself(c, e, callee))
+    TL.closures_on_stack = True
+    lam_cache = {}
+    nfn = 0; nhand = 0
+    for f, trs in traces_of(db, 'cocls::suspend_point::await_suspend', per_instance=False):
+        if not f['params'] or 'coroutine_handle' not in f['params'][0]['type']:
+            continue
+        nfn += 1
+        hname = 'param:' + f['params'][0]['name']
+        trs = [t for t in trs if live(t) and consistent(t)]
+        ctx.paths(rid, len(trs))
+        bad = None
+        for tr in trs:
+            sites = [('%s(h)' % norm(x.get('callee')).split('::')[-1], x) for x in _handovers(tr, lambda i, p: _is_value(tr, i, p, hname))]
+            for i, it in enumerate(tr):
+                if it.k != 'lambda' or not (it.get('use') or '').startswith('arg:'):
+                    continue
+                caps = [c['name'] for c in it.get('captures') or [] if 'coroutine_handle' in (c.get('canon_type') or c.get('type') or '')]
+                mine = {'capture:' + n for n in caps if _is_value(tr, i, _frame_value(db, tr, i, n)[0], hname)}
+                if not mine:
+                    continue
+                key = (it['fn_key'], tuple(sorted(mine)))
+                if key not in lam_cache:
+                    best = []
+                    for lf in db.closure_instances(db.get(it.get('fn')), it['fn_key'])[:1]:
+                        for lt in TL.traces(lf):
+                            if not live(lt):
+                                continue
+                            hs = _handovers(lt, lambda j, p: any(_is_value(lt, j, p, m) for m in mine))
+                            rp = ret_expr(lt)
+                            if rp and any(_is_value(lt, len(lt), rp, m) for m in mine):
+                                hs = hs + [Item(k='return', callee='closure::return', loc=lf['key'])]
+                            if len(hs) > len(best):
+                                best = hs
+                        if TL.truncated:
+                            raise Broken('path bound exceeded in a closure of ' + f['nname'])
+                    lam_cache[key] = best
+                sites += [('closure given to %s: %s(h)' % (it['use'][4:].split('::')[-1], norm(x.get('callee')).split('::')[-1]), x) for x in lam_cache[key]]
+            rp = ret_expr(tr)
+            if rp and _is_value(tr, len(tr), rp, hname):
+                sites.append(('return h (symmetric transfer)', None))
+            nhand += len(sites)
+            if len(sites) > 1 and bad is None:
+                bad = ('the awaiting coroutine is handed over for resumption %d times on one path (%s): it is resumed twice by one co_await' % (len(sites), '; '.join(s for s, _ in sites)), tr)
+        ctx.ob(rid, f, f['key'], bad is None, 'the awaiting coroutine is handed over at most once on each of %d path(s)' % len(trs) + ('' if not bad else ' -- ' + bad[0]),
+               desc='awaiting coroutine handed over for resumption more than once on a path of await_suspend' if bad else None, trace=short_trace(bad[1]) if bad else None)
+    if nfn == 0 or nhand == 0:
+        raise Broken('await_suspend(coroutine_handle): no hand-over of the awaiting coroutine recognised on any path: anchor changed')
 
 
 def _membership_search(tr, hname):
